@@ -161,14 +161,11 @@ def text(a, rng, top=True):
 NORESULT = '<no result>'
 
 
-def _key_literal(t, truth, rng):
-    """literal text selecting exactly the key `truth` of type t, or None when not expressible"""
+def _scalar_lit(t, truth):
     k = t['k']
     if k == 'int':
         v = int(truth['i'])
-        if -2 ** 63 < v < 2 ** 63:
-            return str(v)
-        return None
+        return str(v) if -2 ** 63 < v < 2 ** 63 else None
     if k == 'bool':
         return 'true' if truth else 'false'
     if k in ('string', 'str'):
@@ -183,22 +180,73 @@ def _key_literal(t, truth, rng):
         return '"' + c + '"'
     if k == 'cenum':
         return truth['v']
+    return None
+
+
+def key_pattern(t, truth, rng, wild_p=0.3):
+    """pattern selecting the key `truth` of type t: ('lit', text, truth) | ('wild',) | ('tuple', [..]) |
+    ('struct', [(name, pat)..]); None when not expressible"""
+    k = t['k']
     if k == 'tuple':
         parts = []
         for it, tv in zip(t['items'], truth['t']):
-            if rng.random() < 0.3:
-                parts.append('*')
+            if rng.random() < wild_p:
+                parts.append(('wild',))
             else:
-                p = _key_literal(it, tv, rng)
+                p = key_pattern(it, tv, rng, wild_p)
                 if p is None:
                     return None
                 parts.append(p)
-        return '{' + ', '.join(parts) + '}'
-    return None
+        return ('tuple', parts)
+    if k == 'struct':
+        fields = []
+        tv = dict(truth['f'])
+        for fname, ft in t['fields']:
+            if rng.random() < wild_p:
+                fields.append((fname, ('wild',)))
+            else:
+                p = key_pattern(ft, tv[fname], rng, wild_p)
+                if p is None:
+                    return None
+                fields.append((fname, p))
+        if rng.random() < 0.5:
+            rng.shuffle(fields)
+        return ('struct', fields)
+    s = _scalar_lit(t, truth)
+    if s is None:
+        return None
+    return ('lit', s, truth)
 
 
-def _lit_matches(t, truth, littext_parts):
-    return None
+def pattern_text(p):
+    if p[0] == 'wild':
+        return '*'
+    if p[0] == 'lit':
+        return p[1]
+    if p[0] == 'tuple':
+        return '{' + ', '.join(pattern_text(x) for x in p[1]) + '}'
+    return '{' + ', '.join(f'{n}: {pattern_text(x)}' for n, x in p[1]) + '}'
+
+
+def pattern_has_wild(p):
+    if p[0] == 'wild':
+        return True
+    if p[0] == 'lit':
+        return False
+    if p[0] == 'tuple':
+        return any(pattern_has_wild(x) for x in p[1])
+    return any(pattern_has_wild(x) for _, x in p[1])
+
+
+def pattern_matches(p, truth):
+    if p[0] == 'wild':
+        return True
+    if p[0] == 'lit':
+        return p[2] == truth
+    if p[0] == 'tuple':
+        return len(p[1]) == len(truth['t']) and all(pattern_matches(x, tv) for x, tv in zip(p[1], truth['t']))
+    tv = dict(truth['f'])
+    return all(pattern_matches(x, tv[n]) for n, x in p[1])
 
 
 def typed_exprs(var, truth, rng, n=6):
@@ -255,15 +303,24 @@ def typed_exprs(var, truth, rng, n=6):
     if k in ('hashmap', 'btreemap'):
         kv = truth['m']
         for kt, vt in (rng.sample(kv, min(3, len(kv))) if kv else []):
-            lit = _key_literal(t['key'], kt, rng)
-            if lit is None:
+            pat = key_pattern(t['key'], kt, rng)
+            if pat is None:
                 continue
-            if '*' in lit:
+            lit = pattern_text(pat)
+            if pattern_has_wild(pat):
                 # a wildcard key may match several entries: the result must be the value of one matching entry
-                cands = [v2 for k2, v2 in kv if _tuple_wild_match(t['key'], k2, lit)]
+                cands = [v2 for k2, v2 in kv if pattern_matches(pat, k2)]
                 add(f'{name}[{lit}]', ('any-of', cands), 'map-key-wildcard')
             else:
                 add(f'{name}[{lit}]', vt, 'map-key')
+        if t['key']['k'] in ('tuple', 'struct') and kv:
+            # a pattern that fixes one component to a value no key has must select nothing
+            kt, _ = rng.choice(kv)
+            pat = key_pattern(t['key'], kt, rng, wild_p=0.5)
+            if pat is not None:
+                bad = _poison(pat, rng)
+                if bad is not None and not any(pattern_matches(bad, k2) for k2, _ in kv):
+                    add(f'{name}[{pattern_text(bad)}]', NORESULT, 'na-no-key-matches-pattern')
         if t['key']['k'] == 'int':
             present = {int(k2['i']) for k2, _ in kv}
             for cand in (123456789, -77, 31337):
@@ -275,10 +332,10 @@ def typed_exprs(var, truth, rng, n=6):
     if k in ('hashset', 'btreeset'):
         items = truth['set']
         for it in (rng.sample(items, min(2, len(items))) if items else []):
-            lit = _key_literal(t['inner'], it, rng)
-            if lit is None or '*' in lit:
+            pat = key_pattern(t['inner'], it, rng, wild_p=0.2)
+            if pat is None:
                 continue
-            add(f'{name}[{lit}]', True, 'set-member')
+            add(f'{name}[{pattern_text(pat)}]', True, 'set-member')
         if t['inner']['k'] == 'int':
             present = {int(x['i']) for x in items}
             for cand in (123456789, -77, 31337):
@@ -290,19 +347,35 @@ def typed_exprs(var, truth, rng, n=6):
     return keep
 
 
-def _tuple_wild_match(t, truth, lit):
-    """does the tuple literal text (with * wildcards) match the tuple key `truth`"""
-    parts = [p.strip() for p in lit.strip('{}').split(',')]
-    if t['k'] != 'tuple' or len(parts) != len(truth['t']):
-        return False
-    for it, tv, p in zip(t['items'], truth['t'], parts):
-        if p == '*':
-            continue
-        import random
-        own = _key_literal(it, tv, random.Random(0))
-        if own is None or '*' in own:
-            # compare scalars directly
-            return False
-        if own != p:
-            return False
-    return True
+def _poison(pat, rng):
+    """copy of the pattern with the LAST literal component replaced by a value that is unlikely to exist"""
+    if pat[0] == 'lit':
+        t = pat[1]
+        if t.startswith('"'):
+            return ('lit', '"zq_no_such_key"', {'str': 'zz'})
+        if t in ('true', 'false'):
+            return None
+        if t.lstrip('-').isdigit():
+            return ('lit', str(int(t) // 2 + 987654321), {'i': 'x'})
+        return None
+    if pat[0] == 'tuple':
+        items = list(pat[1])
+        for i in range(len(items) - 1, -1, -1):
+            if items[i][0] != 'wild':
+                b = _poison(items[i], rng)
+                if b is None:
+                    return None
+                items[i] = b
+                return ('tuple', items)
+        return None
+    if pat[0] == 'struct':
+        fields = list(pat[1])
+        for i in range(len(fields) - 1, -1, -1):
+            if fields[i][1][0] != 'wild':
+                b = _poison(fields[i][1], rng)
+                if b is None:
+                    return None
+                fields[i] = (fields[i][0], b)
+                return ('struct', fields)
+        return None
+    return None
